@@ -7,7 +7,7 @@ MODULE = "PropC15"
 THEOREMS = ["C15_code_conforms", "C15_parse_render", "C15_replace_pieces", "C15_test_vectors", "C15_missing_fails", "C15_missing_cases", "C15_setout_missing_fails", "C15_default_path_deterministic", "C15_missing_fails_examples", "C15_command", "C15_modifiers_documented"]
 
 PATHS = ["data/foofile.txt", "barfile.txt", "a/b/c.txt", "../up/x.txt", "/abs/dir/y.txt", "x", "dat.a.txt", "a/s/a/b/t", "d.txt/e.txt", "a.txt.txt"]
-VALS = ["v1", "a.b", "x/y", "10", "dat", "A-b_c", "0.5"]
+VALS = ["v1", "a.b", "x/y", "10", "dat", "A-b_c", "0.5", "C", "chrX"]
 CLEAN_MODS = ["basename", "dirname", "%.txt", "%xyz", "%t", "s/a/b/", "s/dat/DAT/", "s/./_/", "s/txt//", "%.a.txt"]
 ODD_MODS = ["%s/a/b/", "s/x%y/z/", "%", "s//x/", "nonsense", "s/a/b", "basename ", "%%", "s/a/b/c/", ".ext", "join:", "s/{/x/"]
 LITS = ["cat ", " > ", " | tee ", "awk '{print $1}' ", " ", "../", "data/", ".out", "$(", ")", "echo "]
@@ -192,6 +192,29 @@ def run(rep, tier, seed):
                 found = True
                 break
     alld = [("format", lines, diffs)]
+    # (1b) joined in-ports: the placeholder expands to the members in the order they arrived, separated by SEP, each
+    # resolvable from the temp dir ("../" in front of relative paths)
+    if not found:
+        jl = []
+        for _ in range(n // 5):
+            sep = rng.choice([" ", ",", ":", "--", ";"])
+            ms = rng.sample(["chunk1.txt", "chunk10.txt", "chunk2.txt", "b.txt", "a.txt", "d/z.txt", "d/a.txt", "/abs/m.txt", "Z.txt", "m_0.txt"], rng.randint(0, 6))
+            pat = "cat {i:j|join:%s} > {o:o1}" % sep
+            line = "%s %s %d %s %d%s %s %s %s" % (hx(pat), pl([]), 1, hx("j"), len(ms), "".join(" " + hx(m) for m in ms), pl([("o1", "out.txt")]), pl([]), pl([]))
+            exp = "cat " + sep.join(m if m.startswith("/") else "../" + m for m in ms) + " > out.txt"
+            jl.append((line, pat, ms, exp))
+        dj, implj, modelj = vlib.t2_compare("format", [x[0] for x in jl])
+        alld.append(("format", [x[0] for x in jl], dj))
+        total += len(jl)
+        dist["joined_patterns"] = len(jl)
+        if len(implj) == len(jl):
+            for (line, pat, ms, exp), got in zip(jl, implj):
+                g = None if got == "<FAIL>" else unhx(got)
+                if g != exp:
+                    rep.violation("joined placeholder %r with members %s (in arrival order) expands to %r, documented expansion is %r" % (pat, ms, g, exp),
+                                  {"kind": "documented-expansion-join", "pattern": pat, "members": ms, "input_line": line, "impl": g, "documented": exp})
+                    found = True
+                    break
     # (2) free stream incl. malformed patterns and missing values: model vs implementation
     fr = [gen_free(rng) for _ in range(n)]
     lines2 = [f[0] for f in fr]
@@ -203,7 +226,31 @@ def run(rep, tier, seed):
     # missing / empty values must stop the workflow, never give a command
     for sub, gen, m in (("pathfmt", gen_pathfmt, n // 2), ("defpath", gen_defpath, n // 2)):
         ls = [gen(rng) for _ in range(m)]
-        d, _, _ = vlib.t2_compare(sub, ls)
+        d, implx, _ = vlib.t2_compare(sub, ls)
+        if sub == "defpath" and len(implx) == len(ls) and not found:
+            # the documented ingredients of the default name, checked on the implementation's own answer: the base name of
+            # every input, every parameter and tag as key_value with the value as given, the port name
+            for line, ans in zip(ls, implx):
+                t = line.split()
+                def pairs(i):
+                    k = int(t[i]); return [(unhx(t[i + 1 + 2 * j]), unhx(t[i + 2 + 2 * j])) for j in range(k)], i + 1 + 2 * k
+                ins_, i2 = pairs(2); pars_, i3 = pairs(i2); tags_, _ = pairs(i3)
+                a = ans.split()
+                if not a or a[0].startswith("<"):
+                    continue
+                outs_ = [(unhx(a[1 + 2 * j]), unhx(a[2 + 2 * j])) for j in range(int(a[0]))]
+                for port, path in outs_:
+                    missing = [("input base name", v.rstrip("/").rsplit("/", 1)[-1]) for k_, v in ins_ if v.rstrip("/").rsplit("/", 1)[-1] not in path]
+                    missing += [("parameter", k_ + "_" + v) for k_, v in pars_ if (k_ + "_" + v) not in path]
+                    missing += [("tag", k_ + "_" + v) for k_, v in tags_ if (k_ + "_" + v) not in path]
+                    missing += [("port name", port)] if port not in path else []
+                    if missing:
+                        rep.violation("the default output name %r of port %r lacks %s %r (inputs %s, parameters %s, tags %s)" % (path, port, missing[0][0], missing[0][1], ins_, pars_, tags_),
+                                      {"kind": "default-name-ingredient-missing", "input_line": line, "impl": path, "missing": missing})
+                        found = True
+                        break
+                if found:
+                    break
         alld.append((sub, ls, d))
         total += len(ls)
         dist[sub] = len(ls)
